@@ -432,6 +432,7 @@ structure E2S where
   uxs : List Nat := []
   skipped : List Nat := []
   inprog : List (Nat × TimeV) := []     -- tests in progress with their first timestamp (both hooks see the same events)
+  sent : List (Nat × TagSet) := []      -- `test_tags` of the final status events sent downstream (observed by a recorder)
 deriving Repr, DecidableEq, Inhabited
 
 
@@ -627,7 +628,7 @@ def Content.nonEmpty : Content → Bool
   | _ => true
 
 def e2sStart (I : Iface σ) (own : E2S) (inner : σ) : E2S × σ :=
-  ({ started := true, failfast := own.failfast }, I.step inner .startTestRun)
+  ({ started := true, failfast := own.failfast, sent := own.sent }, I.step inner .startTestRun)
 
 def e2sAuto (I : Iface σ) (own : E2S) (inner : σ) : E2S × σ :=
   if own.started then (own, inner) else e2sStart I own inner
@@ -660,7 +661,8 @@ def e2sStep (I : Iface σ) (own : E2S) (inner : σ) (c : Call) : E2S × σ :=
       let first := match own.inprog.find? (·.1 == t) with
         | some p => p.2
         | none => ts
-      let own := { own with inprog := own.inprog.filter (·.1 != t), testsRun := own.testsRun + 1 }
+      let own := { own with inprog := own.inprog.filter (·.1 != t), testsRun := own.testsRun + 1,
+                            sent := own.sent ++ [(t, own.tags.cur)] }
       let own := match k' with
         | .failure => { own with errors := own.errors ++ [t] }
         | .xfail => { own with xfails := own.xfails ++ [t] }
